@@ -146,6 +146,29 @@ func init() {
 	})
 }
 
+func init() {
+	base := Engines["c18"]
+	thr := *base
+	thr.Name = "c18thr"
+	thr.Rule = "as c18, restricted to the templates that take -t, with 2..4 threads; this engine also runs in the -race binary (race detector kept live under the serialised " +
+		"schedule), where a data race between worker goroutines is reported as a violation: a racy update is a result that may differ from run to run"
+	thr.Gen = func(rt *rapid.T, tier string) any {
+		c := genC18(rt, tier).(*DetCase)
+		var names []string
+		for _, t := range detTemplates {
+			if t.threaded {
+				names = append(names, t.name)
+			}
+		}
+		c.Template = rapid.SampledFrom(names).Draw(rt, "thrtemplate")
+		c.Threads = rapid.SampledFrom([]int{2, 3, 4}).Draw(rt, "thrthreads")
+		c.Proc = false
+		return c
+	}
+	thr.Expected = []string{"ran-ok", "threads>1"}
+	Register(&thr)
+}
+
 func genDetFiles(rt *rapid.T) map[string]string {
 	r := rapidRnd{rt}
 	files := map[string]string{}
